@@ -66,6 +66,33 @@ def snapshot(o):
         return None
 
 
+# the per-instance state of the classes at the pinned commit that is public (the property's anchor: "metrics,
+# original_metrics, *_score: per-instance state that accessors must not change"); attributes a change ADDS are not
+# watched (a cache may fill), private ones neither (lazy computation may fill them)
+PUBLIC_STATE = {"2": ["base_score", "environmental_score", "metrics", "temporal_score", "vector"],
+                "3": ["base_score", "environmental_score", "esc", "isc", "isc_base", "metrics", "minor_version", "missing_metrics",
+                      "modified_esc", "modified_isc", "modified_isc_base", "modified_scope", "original_metrics", "scope",
+                      "temporal_score", "vector"],
+                "4": ["base_score", "metrics", "missing_metrics", "original_metrics", "severity", "vector"]}
+_ABSENT = "<absent>"
+
+
+def public_state(ver, o, k=0):
+    """The public attributes read the way a caller reads them; k rotates (odd k: also reverses) the order in which they are
+    read -- reading one attribute must not change what another one shows."""
+    out = {}
+    names = PUBLIC_STATE[ver][k % len(PUBLIC_STATE[ver]):] + PUBLIC_STATE[ver][:k % len(PUBLIC_STATE[ver])]
+    for n in (reversed(names) if k % 2 else names):
+        try:
+            v = getattr(o, n)
+            out[n] = (type(v).__name__, copy.deepcopy(v))
+        except AttributeError:
+            out[n] = _ABSENT
+        except Exception as e:  # noqa
+            out[n] = "<raises %s>" % type(e).__name__
+    return out
+
+
 MUTATIONS = ["clear", "overwrite", "insert", "delete", "nested"]
 
 
@@ -143,10 +170,20 @@ def check_vector(P, ver, s, rng, n_seq, near_miss=False):
             P.evaluations += 1
             o = L.CLS[ver](s)
             snap = snapshot(o)
+            # (read before anything else was called for every third pair: an attribute computed on demand must give
+            # the same value whenever it is read)
+            k_ = names.index(a) * len(names) + names.index(b)
+            pub = public_state(ver, o, k_) if k_ % 3 == 0 else public_state(ver, L.CLS[ver](s), k_)
             ok, ra = obs.call(fns[a], o)
             ok2, rb = obs.call(fns[b], o)
             P.ev("pair-stable")
             case = dict(case0, sequence=[a, b])
+            P.ev("public-state-stable")
+            pub2 = public_state(ver, o)
+            if pub2 != pub:
+                ch = sorted(n for n in pub if pub[n] != pub2[n])
+                P.violation("public-state-stable", "C18:v%s:public-attribute-changes-with-the-accessors-called-before:%s" % (ver, "+".join(ch)[:80]),
+                            case, fresh={n: repr(pub[n])[:80] for n in ch}, after={n: repr(pub2[n])[:80] for n in ch})
             if not ok or not ok2:
                 P.violation("total", "C18:v%s:%s-raises-after-%s" % (ver, b, a), case, error=repr(ra if not ok else rb))
                 continue
